@@ -23,6 +23,8 @@ func main() {
 		os.Exit(2)
 	}
 	switch os.Args[1] {
+	case "schema-dump": // the live aper tags of every NGAP type, as JSON (source of harness/ref/per/ngap_schema_snapshot.json)
+		os.Stdout.Write(checks.SchemaDumpJSON())
 	case "list":
 		for _, id := range fw.IDs() {
 			fmt.Println(id)
